@@ -220,7 +220,11 @@ def run(ctx):
     cb = F.with_descendants(call)
     in_call = [(g, i, s) for g, i, j, s in sh if any(g.id == x.id for x in cb)]
     awaited_send = lambda x: bool(P.root(x)) and all(P.is_call(r, 'mpsc::Sender::send') and ('t', 'await') in p for r, p in P.root(x))
-    ok = bool(in_call) and all(on_error_of(g, i, awaited_send) for g, i, s in in_call)
+    # ... or under `to_dispatch.is_closed()`: a fail-fast check before enqueueing is the same fact (the dispatch dropped its receiver) learnt earlier
+    from .common import guarded_by_bool as _gbb
+    queue_closed = lambda x: bool(P.root(x, inline=False)) and all(P.is_call(r, 'mpsc::Sender::is_closed') for r, _ in P.root(x, inline=False))
+    ok = bool(in_call) and any(on_error_of(g, i, awaited_send) for g, i, s in in_call) \
+        and all(on_error_of(g, i, awaited_send) or bool(_gbb(F, P, g, i, queue_closed, True)) for g, i, s in in_call)
     R.ob('C09.shutdown', ('Channel::call', 'enqueue failure -> Shutdown'), ok, 'a call made after the dispatch ended fails fast with RpcError::Shutdown', [g.loc(s) for g, i, s in in_call] or [call.loc(call.d)])
     resp = [f for f in F.fns.values() if f.impl_of and f.impl_of.get('self_head') and path_matches(f.impl_of['self_head'], 'client::ResponseGuard') and not (f.impl_of.get('trait'))]
     okr = False
